@@ -340,6 +340,41 @@ def main():
     if extra_checks:
         rel_failures = extra_checks(reqs, [canon(r, a) for r, a in zip(reqs, impl_ans)])
 
+    # ---------- 4b. cross streams: a sample of the request streams of neighbouring properties (same model
+    # definitions, other access paths / source kinds), compared model <-> implementation on outcomes only.
+    # The theorems of this property are about model definitions shared with those streams; a
+    # disagreement there means the model this property is proved about no longer describes the code.
+    cross_n = 0
+    cross_hist = {}
+    if not args.replay:
+        for other, n in getattr(mod, "CROSS", {}).items():
+            if args.tier == "thorough":
+                n *= 4
+            om = importlib.import_module("gen." + other)
+            orng = random.Random(seed * 1000003 + int(other[1:]))
+            oreqs = list(om.gen("quick", orng))
+            if not oreqs:
+                continue
+            step = max(1, len(oreqs) // n)
+            oreqs = oreqs[::step][:n]
+            o_impl_req = getattr(om, "impl_request", lambda r: r)
+            o_model_req = getattr(om, "model_request", lambda r: r)
+            o_impl_only = getattr(om, "impl_only", lambda r: False)
+            o_canon = getattr(om, "canon", lambda req, ans: ans)
+            oreqs = [r for r in oreqs if not o_impl_only(r)]
+            oi = run_lines(impl, [o_impl_req(r) for r in oreqs])
+            omo = run_lines(model_bin(), [o_model_req(r) for r in oreqs])
+            cross_n += len(oreqs)
+            cross_hist[other] = len(oreqs)
+            for r, a, b in zip(oreqs, oi, omo):
+                a_i, a_m = o_canon(r, a), o_canon(r, b)
+                if a_i.startswith(("PANIC", "CONTRACT", "HANG", "ABORT")) and not getattr(om, "panic_expected", lambda r: False)(r):
+                    spec_failures.append({"request": r, "impl": a_i, "model": a_m, "spec": "no panic / contract breach / hang / abort (cross stream %s)" % other})
+                elif a_i in ("bad-op", "unsupported") or a_m == "bad-op":
+                    continue
+                elif a_i != a_m and a_m != "nomodel":
+                    disagreements.append({"request": r, "impl": a_i, "model": a_m, "spec": None, "cross": other})
+
     # ---------- 5. verdict
     def is_known(entry):
         for k in known.get("known", []):
@@ -405,7 +440,7 @@ def main():
                    extra={"evaluations": len(reqs), "distinct_nontrivial": len(distinct),
                           "answer_histogram": hist, "reference_compared": len(spec_idx),
                           "disagreements": len(disagreements), "reference_failures": len(spec_failures),
-                          "relational_failures": len(rel_failures), "repo": repo_path(),
+                          "relational_failures": len(rel_failures), "cross_stream_requests": cross_hist, "repo": repo_path(),
                           "repo_head": git_head(repo_path())})
     sys.exit(1 if violations else 0)
 
